@@ -145,6 +145,40 @@ theorem get_insertAll (l ops : List (K × V)) (k : K) :
       · subst hk; simp [get_insert_self]
       · simp [hk, get_insert_of_ne l e.2 (Ne.symm hk)]
 
+theorem mem_keys_insert (l : List (K × V)) (k k₂ : K) (v : V) :
+    k ∈ (insert l k₂ v).map (·.1) ↔ k ∈ l.map (·.1) ∨ k = k₂ := by
+  by_cases h : k₂ ∈ l.map (·.1)
+  · rw [keys_insert_of_mem v h]
+    constructor
+    · exact Or.inl
+    · rintro (h' | rfl)
+      · exact h'
+      · exact h
+  · rw [insert_of_not_mem v h]; simp
+
+theorem mem_keys_insertAll (l ops : List (K × V)) (k : K) :
+    k ∈ (insertAll l ops).map (·.1) ↔ k ∈ l.map (·.1) ∨ k ∈ ops.map (·.1) := by
+  induction ops generalizing l with
+  | nil => simp [insertAll]
+  | cons e r ih =>
+    have := ih (insert l e.1 e.2)
+    simp only [insertAll, foldl_cons] at this ⊢
+    rw [this, mem_keys_insert]
+    simp only [map_cons, mem_cons]
+    tauto
+
+/-- the model's `HashMap::insert` on an association list is the same function as the specification's
+    insert (which is why `HashMap` contents can be reasoned about with the `Spec` lemmas) -/
+theorem put_eq_insert (m : List (K × V)) (k : K) (v : V) : HMap.put m k v = insert m k v := by
+  induction m with
+  | nil => rfl
+  | cons e r ih =>
+    obtain ⟨k', v'⟩ := e
+    simp only [HMap.put, insert, ih]
+
+theorem ofList_eq_insertAll (l : List (K × V)) : HMap.ofList l = insertAll [] l := by
+  simp only [HMap.ofList, insertAll, put_eq_insert]
+
 end Spec
 
 namespace Container
